@@ -8,12 +8,6 @@ set_option linter.constructorNameAsVariable false
 
 namespace ChemModel.Formula
 
-/-- digit groups joined by single underscores -/
-def joinUnders : List (List Char) → List Char
-  | [] => []
-  | [g] => g
-  | g :: gs => g ++ '_' :: joinUnders gs
-
 theorem dropSpaces_append_spaces (w x : List Char) (hw : ∀ c ∈ w, isPySpace c = true) :
     dropSpaces (w ++ x) = dropSpaces x := by
   induction w with
@@ -109,5 +103,94 @@ theorem pyInt_of_groups (w1 w2 : List Char) (gs : List (List Char)) (hw1 : ∀ c
     have := this gs (fun g hg => (hall g hg).1)
     simp only [List.length_append]; omega
   rw [pyInt, hstrip, intDigits_join gs _ hgs hlen hall]; rfl
+
+end ChemModel.Formula
+
+namespace ChemModel.Formula
+
+/-- refusing direction: whatever `intDigits` accepts is a non-empty list of non-empty digit groups joined by single underscores -/
+theorem intDigits_groups : ∀ (fuel : Nat) (t ds : List Char), intDigits fuel t = some ds →
+    ∃ gs : List (List Char), gs ≠ [] ∧ (∀ g ∈ gs, g ≠ [] ∧ ∀ c ∈ g, c.isDigit = true) ∧ t = joinUnders gs ∧ ds = gs.flatten := by
+  intro fuel
+  induction fuel with
+  | zero => intro t ds h; simp [intDigits] at h
+  | succ f ih =>
+    intro t ds h
+    obtain ⟨h1, hd1⟩ := takeDigits_spec t
+    simp only [intDigits] at h
+    split at h
+    · simp at h
+    · rename_i hne
+      split at h
+      · rename_i heq
+        simp at h
+        refine ⟨[(takeDigits t).1], by simp, ?_, ?_, ?_⟩
+        · intro g hg; simp at hg; subst hg; exact ⟨hne, hd1⟩
+        · rw [heq, List.append_nil] at h1; simpa [joinUnders] using h1
+        · simp [← h]
+      · rename_i r' heq
+        cases hr : intDigits f r' with
+        | none => rw [hr] at h; simp at h
+        | some ds' =>
+          rw [hr] at h
+          simp at h
+          obtain ⟨gs', hne', hall', ht', hds'⟩ := ih r' ds' hr
+          refine ⟨(takeDigits t).1 :: gs', by simp, ?_, ?_, ?_⟩
+          · intro g hg
+            rcases List.mem_cons.mp hg with e | e
+            · subst e; exact ⟨hne, hd1⟩
+            · exact hall' g e
+          · cases gs' with
+            | nil => exact absurd rfl hne'
+            | cons g2 gs2 =>
+              simp only [joinUnders]
+              rw [← ht', ← heq]; exact h1
+          · rw [← h, hds']; simp
+      · simp at h
+
+/-- **`int()` on the charge number (model), exact characterisation.** `pyInt s = some n` iff `s` is optional ASCII whitespace,
+    non-empty ASCII digit groups joined by SINGLE underscores, optional ASCII whitespace, and `n` is the decimal value of all the
+    digits. So ` 3`, `3 `, `1_0`, `007` are read; `1__0`, `_1`, `1_`, `1 0`, the empty / blank string and anything with another
+    character are refused. -/
+theorem pyInt_iff (s : List Char) (n : Nat) :
+    pyInt s = some n ↔
+      ∃ (w1 w2 : List Char) (gs : List (List Char)),
+        (∀ c ∈ w1, isPySpace c = true) ∧ (∀ c ∈ w2, isPySpace c = true) ∧ gs ≠ [] ∧
+        (∀ g ∈ gs, g ≠ [] ∧ ∀ c ∈ g, c.isDigit = true) ∧ s = w1 ++ (joinUnders gs ++ w2) ∧ n = digitsVal gs.flatten := by
+  constructor
+  · intro h
+    simp only [pyInt, Option.map_eq_some_iff] at h
+    obtain ⟨ds, hds, hn⟩ := h
+    obtain ⟨w1, w2, hs, a1, a2⟩ := stripPy_spec s
+    obtain ⟨gs, hne, hall, ht, hfl⟩ := intDigits_groups _ _ _ hds
+    exact ⟨w1, w2, gs, a1, a2, hne, hall, by rw [← ht]; exact hs, by rw [← hn, hfl]⟩
+  · rintro ⟨w1, w2, gs, a1, a2, hne, hall, hs, hn⟩
+    rw [hs, hn]
+    exact pyInt_of_groups w1 w2 gs a1 a2 hne hall
+
+end ChemModel.Formula
+
+namespace ChemModel.Formula
+
+theorem IntText.ne_nil {rest : List Char} {n : Nat} (h : IntText rest n) : rest ≠ [] := by
+  obtain ⟨w1, w2, gs, _, _, hne, hall, hs, _⟩ := h
+  obtain ⟨⟨c, r, hj, _⟩, _⟩ := joinUnders_head gs hne hall
+  rw [hs, hj]; simp
+
+/-- `_get_charge` characterised purely syntactically (no reference to the `int()` model) -/
+theorem getCharge_ok_iff_text (s : List Char) (q : Int) :
+    getCharge s = .ok q ↔
+      (s = ['+'] ∧ q = 1) ∨ (s = ['-'] ∧ q = -1) ∨
+      (∃ rest n, IntText rest n ∧ ((s = '+' :: rest ∧ q = (n : Int)) ∨ (s = '-' :: rest ∧ q = -(n : Int)))) := by
+  rw [getCharge_ok_iff]
+  constructor
+  · rintro (h | h | ⟨rest, n, _, hp, h⟩)
+    · exact Or.inl h
+    · exact Or.inr (Or.inl h)
+    · exact Or.inr (Or.inr ⟨rest, n, (pyInt_iff rest n).mp hp, h⟩)
+  · rintro (h | h | ⟨rest, n, ht, h⟩)
+    · exact Or.inl h
+    · exact Or.inr (Or.inl h)
+    · exact Or.inr (Or.inr ⟨rest, n, ht.ne_nil, (pyInt_iff rest n).mpr ht, h⟩)
 
 end ChemModel.Formula
